@@ -378,6 +378,8 @@ func (ms *Modules) Process() []error {
 		}
 		return mods[i].FullName() < mods[j].FullName()
 	})
+	fixed, applied := false, 0
+augment:
 	for len(mods) > 0 {
 		var processed int
 		for i := 0; i < len(mods); {
@@ -394,6 +396,7 @@ func (ms *Modules) Process() []error {
 		if processed == 0 {
 			break
 		}
+		applied += processed
 	}
 
 	// Now fix up all the choice statements to add in the missing case
@@ -403,6 +406,14 @@ func (ms *Modules) Process() []error {
 	}
 	for _, m := range ms.SubModules {
 		ToEntry(m).FixChoice()
+	}
+
+	// A target path through an implicit case exists only now, and what
+	// such an augment grafts may need case statements of its own or be the
+	// target of yet another augment: go round again while that helps.
+	if len(mods) > 0 && (!fixed || applied > 0) {
+		fixed, applied = true, 0
+		goto augment
 	}
 
 	// Go through any modules that have remaining augments and collect
